@@ -20,7 +20,7 @@ P = json.loads(os.environ.get('XH_PARAMS', '{}') or '{}')
 from xh import scratchdir
 _ROOT = scratchdir.fresh('c12')
 
-KSPECS = [KmerSpec(1, 'A'), KmerSpec(8, 'ATG'), KmerSpec(11, 'ATGAC'), KmerSpec(16, 'CC'), KmerSpec(17, 'T'), KmerSpec(32, 'ACGTACG')]
+KSPECS = [KmerSpec(1, 'A'), KmerSpec(8, 'ATG'), KmerSpec(8, 'ACG'), KmerSpec(11, 'ATGAC'), KmerSpec(16, 'CC'), KmerSpec(17, 'T'), KmerSpec(32, 'ACGTACG')]
 DTYPES = ['u1', 'u2', 'u4', 'u8']
 SHAPES = [[0], [0, 0, 0], [3], [0, 2, 0, 5, 1], [1, 1, 1, 1, 1, 1], [4, 0]]
 CONTAINERS = ['SignatureArray', 'SignatureList', 'AnnotatedSignatures(SignatureArray)', 'AnnotatedSignatures(SignatureList)', 'HDF5Signatures (re-dumped)']
